@@ -256,6 +256,72 @@ Proof.
   unfold pieces_of in Hp. apply in_flat_map in Hp. destruct Hp as [l [_ Hp]]. exact (Hws l w p c Hp Hc).
 Qed.
 
+(** ---------------- the rate-limited queue is a FIFO ---------------- *)
+
+Lemma q_step_order : forall st o,
+  q_sent (q_step st o) ++ q_queue (q_step st o)
+  = (q_sent st ++ q_queue st) ++ match o with QSend l => [l] | QTick => [] end.
+Proof.
+  intros [q snt t] [l|]; destruct t; destruct q as [|h r];
+    unfold q_step, q_send, q_fire; cbn [q_queue q_sent q_timer app];
+    rewrite ?app_nil_r, <- ?app_assoc; reflexivity.
+Qed.
+
+Lemma q_run_order : forall ops st,
+  q_sent (q_run st ops) ++ q_queue (q_run st ops) = (q_sent st ++ q_queue st) ++ q_sends ops.
+Proof.
+  induction ops as [|o ops IH]; intros st; [cbn; rewrite app_nil_r; reflexivity|].
+  cbn [q_run fold_left q_sends flat_map]. fold (q_run (q_step st o) ops). rewrite IH, q_step_order.
+  rewrite <- !app_assoc. reflexivity.
+Qed.
+
+(** what has been written is always a prefix of what was handed to sendLine, in the same order *)
+Lemma q_sent_prefix : forall ops, exists rest, q_sends ops = q_sent (q_run q_init ops) ++ rest.
+Proof. intros ops. exists (q_queue (q_run q_init ops)). symmetry. apply (q_run_order ops q_init). Qed.
+
+(** a non-empty queue always has its timer armed *)
+Definition q_ok (st : qstate) : Prop := q_queue st = [] \/ q_timer st = true.
+
+Lemma q_step_ok : forall st o, q_ok st -> q_ok (q_step st o).
+Proof.
+  intros [q snt t] o H. unfold q_ok in *. cbn [q_queue q_timer] in H.
+  destruct o as [l|]; unfold q_step, q_send, q_fire; cbn [q_queue q_timer].
+  - destruct t; cbn [q_queue q_timer]; [right; reflexivity|].
+    destruct H as [-> | H]; [|discriminate]. cbn. right. reflexivity.
+  - destruct t; [|exact H]. destruct q as [|h r]; cbn; [left | right]; reflexivity.
+Qed.
+
+Lemma q_run_ok : forall ops st, q_ok st -> q_ok (q_run st ops).
+Proof.
+  induction ops as [|o ops IH]; intros st H; [exact H|].
+  cbn [q_run fold_left]. apply IH. apply q_step_ok. exact H.
+Qed.
+
+(** ... so as many ticks as there are queued lines drain it *)
+Lemma q_drain : forall n st, q_ok st -> length (q_queue st) = n ->
+  q_queue (q_run st (repeat QTick n)) = [].
+Proof.
+  induction n as [|n IH]; intros [q snt t] Hok Hlen; cbn [q_queue] in Hlen.
+  - destruct q; [reflexivity | discriminate].
+  - destruct q as [|h r]; [discriminate|]. cbn [length] in Hlen.
+    destruct Hok as [H | H]; cbn [q_queue q_timer] in H; [discriminate|]. subst t.
+    cbn [repeat q_run fold_left q_step q_timer q_fire q_queue q_sent].
+    apply IH; [right; reflexivity | cbn; lia].
+Qed.
+
+Lemma q_fifo_total : forall ops,
+  let st := q_run q_init ops in
+  q_sent (q_run st (repeat QTick (length (q_queue st)))) = q_sends ops.
+Proof.
+  intros ops st.
+  pose proof (q_run_ok ops q_init (or_introl eq_refl)) as Hok. fold st in Hok.
+  pose proof (q_drain (length (q_queue st)) st Hok eq_refl) as Hd.
+  pose proof (q_run_order (repeat QTick (length (q_queue st))) st) as Ho.
+  rewrite Hd, app_nil_r in Ho. rewrite Ho.
+  assert (Ht : forall n, q_sends (repeat QTick n) = []) by (induction n; [reflexivity | exact IHn]).
+  rewrite Ht, app_nil_r. apply (q_run_order ops q_init).
+Qed.
+
 (** ---------------- the octet limit is false in general (F17) ---------------- *)
 
 Definition ex_msgType : list N := [80; 82; 73; 86; 77; 83; 71].     (* PRIVMSG *)
